@@ -31,7 +31,7 @@ ASSUMPTIONS = [
 ]
 TECHNIQUE = "fault enumeration (every failing task x exception kind x all completion interleavings on a controlled executor) + Hypothesis on real pools; oracle = injected fault identity + execution log"
 
-KINDS = ["ValueError", "custom", "base", "keyboard", "unpicklable"]
+KINDS = ["ValueError", "custom", "samename", "base", "keyboard", "unpicklable"]  # "samename": another class also called InjectedError
 
 
 def msg_for(i):
